@@ -8,7 +8,7 @@ from vmc import models
 
 ID = "C19"
 LEVEL = "model_checking"
-RULE = ("every integer 0..N and 40 large ones written plainly, with thousands separators and as exact decimal mantissa x "
+RULE = ("every integer 0..N and 40 large ones written plainly, with thousands separators, as exact decimal mantissa x each unit spelling and with BOTH separators and a unit; mantissa x "
         "each unit spelling (k,K,kb,Kb,KB,m,M,Mb,MB,g,G,Gb), in start / end / open-ended position, under 14 chromosome "
         "names; all ordered pairs of a 60-value coordinate set; format->parse round trip; families of malformed strings "
         "(empty name, missing hyphen, negative, non-numeric, reversed, unknown unit); parse_region against chromosome "
@@ -18,7 +18,7 @@ BOUNDS = {"quick": "N = 100000", "thorough": "N = 2000000"}
 ASSUMPTIONS = ["unit-less decimals ('1000.0'), misgrouped commas, inner whitespace, a second colon and trailing garbage after "
                "a complete range are not classified by the statement and are not judged",
                "strings are built with decimal/int arithmetic, never floats"]
-EXPECT_CLASSES = {"*": ["spelling:plain", "spelling:commas", "spelling:k", "spelling:M", "spelling:G", "malformed", "uri"]}
+EXPECT_CLASSES = {"*": ["spelling:plain", "spelling:commas", "spelling:k", "spelling:M", "spelling:G", "spelling:commas+unit", "malformed", "uri", "parse_region:string-open-beyond"]}
 
 NAMES = ["chr1", "1", "chrX_random", "name-with-hyphens-", "GL000207.1", "gb|acc|locus", "chr 1", "2-micron", "a.b", "X",
          "chrUn_KI270742v1", "-", "k", "10k"]
@@ -59,6 +59,11 @@ def spellings(v):
         m = mantissa(v, dg)
         for nm in names:
             out.append((u, m + nm))
+        # thousands separators AND a unit: "1,500kb", "12,345.678k"
+        ip, _, fp = m.partition(".")
+        if len(ip) > 3:
+            out.append(("commas+unit", f"{int(ip):,}" + ("." + fp if fp else "") + names[0]))
+            out.append(("commas+unit", f"{int(ip):,}" + ("." + fp if fp else "") + names[-1]))
     return out
 
 
@@ -214,6 +219,9 @@ def _parse_region(R, only):
                     if e >= s:
                         cases.append((f"{name}:{s}-{e}", "string"))
                 cases.append((f"{name}:{s}-", "string-open"))
+            for s in (L + 1, L + 5, 10 * L + 7):      # open-ended range that STARTS beyond the chromosome
+                cases.append((f"{name}:{s}-", "string-open-beyond"))
+                cases.append(((name, s, None), "tuple-open-beyond"))
             cases.append((name, "bare"))
             cases.append((("nochr", 0, 1), "unknown"))
             cases.append(("nochr:0-1", "unknown"))
